@@ -100,7 +100,7 @@ CFG = {
             'non-trivial = |h| >= EPSILON (Kepler branch reached)',
     'trusted': ['hand-written PrimFloat model of Helix::closest_t / Helix::at (coq/Recon/Helix.v), tied to '
                 'physics/src/reconstruction.rs by the bit-exact differential run',
-                'uom 0.35 operator semantics as read from its source (new = (v + 0.0) * 1.0, get = v / 1.0 - 0.0, '
+                'uom 0.35 operator semantics as read from its source (new = (v + -0.0) * 1.0, get = v / 1.0 - 0.0: identities, signed zero preserved, '
                 'autoconvert change_base = identity)',
                 'glibc libm sin/cos/atan2/hypot/floor: called from OCaml in the model runner and from Rust in the '
                 'implementation (same shared library); not modelled in Coq',
